@@ -12,10 +12,14 @@ fn ct_of(msg: &[u8]) -> Vec<u8> { cbor::from_slice::<SessionData>(msg).unwrap().
 fn wrap(ct: Vec<u8>) -> Vec<u8> { cbor::to_vec(&SessionData { data: Some(ct.into()), status: None }).unwrap() }
 fn tdesc(d: &str) -> String { format!("{}t", &d[..d.len() - 1]) }
 
+static FULL_SWEEPS: std::sync::atomic::AtomicUsize = std::sync::atomic::AtomicUsize::new(0);
+
+/// thorough: EVERY bit of the first 40 ciphertexts of at most 2 KiB (requests and responses of both
+/// directions), and 1024 sampled bits of every other one - the trace stays below ~1 GB
 fn bit_positions(ctx: &mut Ctx, nbits: usize) -> Vec<usize> {
-    if ctx.thorough && nbits <= 2048 * 8 { return (0..nbits).collect(); }
+    if ctx.thorough && nbits <= 2048 * 8 && FULL_SWEEPS.fetch_add(1, std::sync::atomic::Ordering::SeqCst) < 40 { return (0..nbits).collect(); }
     let mut v = vec![0, 1, 7, 8, nbits - 1, nbits - 8, nbits - 128, nbits - 129, nbits / 2];
-    for _ in 0..(if ctx.thorough { 256 } else { 40 }) { v.push(ctx.rng.gen_range(0..nbits)); }
+    for _ in 0..(if ctx.thorough { 1024 } else { 40 }) { v.push(ctx.rng.gen_range(0..nbits)); }
     v.retain(|&b| b < nbits);
     v
 }
@@ -33,7 +37,7 @@ fn variants_to(ctx: &mut Ctx, h: &mut Hist, to_device: bool, honest: &(Vec<u8>, 
         deliver(h, ctx, &wrap(c), &tdesc(&honest.1), Some(false), "bitflip");
     }
     // truncations (re-wrapped as well-formed SessionData)
-    let lens: Vec<usize> = if ctx.thorough { (0..ct.len()).collect() } else {
+    let lens: Vec<usize> = if ctx.thorough && ct.len() <= 2048 { (0..ct.len()).collect() } else {
         let mut v = vec![0, 1, 15, 16, 17, ct.len() - 1, ct.len() - 15, ct.len() - 16, ct.len() - 17, ct.len() / 2];
         v.retain(|&l| l < ct.len()); v };
     for l in lens { deliver(h, ctx, &wrap(ct[..l].to_vec()), &tdesc(&honest.1), Some(false), "truncation"); }
@@ -76,10 +80,45 @@ fn normalise(m: &[u8]) -> Vec<u8> {
     wrap(se.data.into())
 }
 
+/// the end of the 32-bit counter space (sessions restored with counters just below u32::MAX): the last
+/// messages are still accepted exactly once, a replay is rejected, and nothing is accepted or produced
+/// beyond the last counter value.  Direct Spec(real) lines (the session model does not span 2^32 messages).
+fn counter_edge(ctx: &mut Ctx, pki: &Pki) {
+    let mut rng2: rand_chacha::ChaCha8Rng = rand::SeedableRng::seed_from_u64(ctx.rng.gen());
+    for start in [u32::MAX - 3, u32::MAX - 2, u32::MAX - 1] {
+        let mut s = Sim::new(7, pki, &mut rng2, &[MDL], &["family_name"], pki.iaca_registry(), TrustAnchorRegistry::default());
+        s.set_counters(start, start, start, start);
+        let mut last_req: Option<Vec<u8>> = None;
+        for step in 0..4 {
+            let case = serde_json::json!({"start_counter": start, "step": step, "msg_hex": format!("edge-{start}-{step}")});
+            match s.rdr.new_request(sess::simple_namespaces(&["family_name"])) {
+                Ok(msg) => {
+                    let o = s.dev.handle_request(&msg);
+                    ctx.emit.line("spec", "spec:counter-edge:fresh-accepted", format!("spec.eq {} false", o.errors.contains_key("decryption_errors")), "true".into(), case.clone());
+                    let o2 = s.dev.handle_request(&msg);
+                    ctx.emit.line("spec", "spec:counter-edge:replay-rejected", format!("spec.eq {} true", o2.errors.contains_key("decryption_errors")), "true".into(), case.clone());
+                    // keep the device's receive counter in step with the reader (the failed replay consumed a number)
+                    let p = sess::peek_reader(&s.rdr); let pd = sess::peek_device(&s.dev);
+                    s.set_counters(pd.dev_ctr, p.rdr_ctr, p.rdr_ctr, p.dev_ctr);
+                    last_req = Some(msg);
+                }
+                Err(_) => {
+                    // exhausted: the reader refuses to send; the device must not accept the last message again either
+                    if let Some(m) = &last_req { let o = s.dev.handle_request(m);
+                        ctx.emit.line("spec", "spec:counter-edge:replay-rejected-when-exhausted", format!("spec.eq {} true", o.errors.contains_key("decryption_errors")), "true".into(), case.clone()); }
+                    let p = sess::peek_reader(&s.rdr);
+                    ctx.emit.line("spec", "spec:counter-edge:exhausted-at-max", format!("spec.eq {} {}", p.rdr_ctr, u32::MAX), "true".into(), case.clone());
+                }
+            }
+        }
+    }
+}
+
 pub fn run(ctx: &mut Ctx) {
     let pki = Pki::new(&mut ctx.rng);
+    counter_edge(ctx, &pki);
     let docs = [MDL];
-    let sessions = if ctx.thorough { 12 } else { 2 };
+    let sessions = if ctx.thorough { 10 } else { 2 };
     let rounds = if ctx.thorough { 4 } else { 3 };
     for s in 0..sessions {
         let mut rng2: rand_chacha::ChaCha8Rng = rand::SeedableRng::seed_from_u64(ctx.rng.gen());
